@@ -428,3 +428,70 @@ func H_jsLiteralIn(pos, n int) {
 	verifObserve("js", out)
 	verifAssert(jsCount(out, want) == 1, "a string literal is not emitted as the same JavaScript token at every position of a command")
 }
+
+// jsQuoteSoy spells text as a Soy string literal (the escapes the language defines).
+func jsQuoteSoy(text string) string {
+	q := "'"
+	for i := 0; i < len(text); i++ {
+		switch c := text[i]; c {
+		case '\\':
+			q += "\\\\"
+		case '\'':
+			q += "\\'"
+		case '\n':
+			q += "\\n"
+		case '\r':
+			q += "\\r"
+		case '\t':
+			q += "\\t"
+		case '\b':
+			q += "\\b"
+		case '\f':
+			q += "\\f"
+		default:
+			q += string(c)
+		}
+	}
+	return q + "'"
+}
+
+// H_jsSource: a string literal of n symbolic ASCII characters written in template source (as a
+// print, with autoescaping cancelled) through the real parser and the generator: the emitted
+// literal denotes exactly the characters the source literal denotes.
+func H_jsSource(n int) {
+	text := jsSymText(n, 0)
+	for i := 0; i < len(text); i++ {
+		verifAssume(text[i] >= 0x20 || text[i] == '\n' || text[i] == '\t' || text[i] == '\r')
+		verifAssume(text[i] != '{' && text[i] != '}') // (braces end the tag: not spellable inside a print)
+	}
+	src := "{namespace n}\n/** */\n{template .t autoescape=\"false\"}\n{" + jsQuoteSoy(text) + "}\n{/template}\n"
+	reg := jsMust(data.Map{}, src)
+	out, err := jsWrite(reg.SoyFiles[0], false)
+	verifAssert(err == nil, "js generation failed")
+	verifObserve("text", text)
+	verifObserve("js", out)
+	const pre, suf = "  output += '", "';\n"
+	at := -1
+	for i := 0; i+len(pre) <= len(out); i++ {
+		if out[i:i+len(pre)] == pre {
+			at = i + len(pre)
+			break
+		}
+	}
+	verifAssert(at >= 0, "no append statement for a printed string literal")
+	end := -1
+	for i := at; i+len(suf) <= len(out); i++ {
+		if out[i] == '\\' {
+			i++
+			continue
+		}
+		if out[i:i+len(suf)] == suf {
+			end = i
+			break
+		}
+	}
+	verifAssert(end >= 0, "unterminated literal for a printed string literal")
+	dec, ok := refJSLiteral(out[at:end], '\'')
+	verifAssert(ok, "emitted JavaScript string literal is malformed or not script-safe: source literal")
+	verifAssert(dec == text, "a string literal in template source does not denote the same characters in the generated JavaScript")
+}
